@@ -180,14 +180,15 @@ fn gen_c01(tier: &str, rng: &mut Rng) -> Vec<Case> {
     // lists count items, tables size cells, pre/sup/strikeout look at their children)
     let d2 = 100000;
     for wrapper in ["<a href=\"u\">", "<ol id=\"o\"><li>", "<sup>", "<s>", "<pre>", "<table><tr><td colspan=\"2\">", "<dl><dt>", "<h3>", "<a href=\"u\"><img alt=\"i\" src=\"s\">"] {
-        for tag in ["span", "div", "em"] {
+        for (tag, deco) in [("span", 0u8), ("span", 2), ("span", 3), ("div", 0), ("div", 3), ("em", 0), ("em", 2), ("em", 3)] {
             // the rich decorator copies the annotation stack per element (quadratic in the depth:
             // 100000 nested <em> take minutes), so it gets a smaller depth
-            let deco = *rng.pick(&[0u8, 2, 3]);
-            let depth = if deco == 2 { d2 / 10 } else { d2 };
+            // nested blocks are quadratic too (100000 nested <div> take about a minute)
+            let depth = if deco == 2 || tag == "div" { d2 / 10 } else { d2 };
             let html = format!("<p>before</p>{}{}deep", wrapper, format!("<{}>", tag).repeat(depth));
             let id = cases.len();
-            let mut c = mk_case(id, 0, Cfg { deco, ..Default::default() }, 40, html.into_bytes(), None, g("deep"), "deep_wrapped");
+            // route 30 = the string route on a 1.5 MiB stack
+            let mut c = mk_case(id, 30, Cfg { deco, ..Default::default() }, 40, html.into_bytes(), None, g("deep"), "deep_wrapped");
             c.spec.want_dom = false;
             cases.push(c);
         }
